@@ -49,7 +49,7 @@ Constructs(c) == IF c.twice THEN <<X(c, c.over), Text("+"), X(c, Complement(c.ov
 
 Host(c) ==
   LET xs == Constructs(c)
-      pre == <<SetS("a", IntE(1)), SetS("b", IntE(2)), SetS("v", StrE("o")), SetS("wh", WithHash)>> \o (IF c.hostp THEN <<BlockS("p", <<Text("HP")>>)>> ELSE <<>>)
+      pre == <<SetS("a", IntE(1)), SetS("b", IntE(2)), SetS("v", StrE("o")), SetS("wh", WithHash)>> \o (IF c.hostp THEN <<BlockS("p", <<Text("HP")>>), BlockS("q", <<Text("HQ")>>)>> ELSE <<>>)
       post == <<Text(";"), PrintS(NameE("a")), PrintS(NameE("n")), Text("|"), PrintS(AttrDot(NameE("wh"), "a")),
                 PrintS(AttrDot(NameE("wh"), "w")), PrintS(AttrDot(NameE("wh"), "n"))>>
   IN CASE c.site = "top" -> pre \o <<Text("H1")>> \o xs \o <<Text("H2")>> \o post
@@ -93,7 +93,7 @@ One(c, ov, iter) ==
     [] OTHER -> "T[" \o Blk(c, ov, "p", "tp" \o VA(c)) \o "|" \o Blk(c, ov, "q", "tq") \o "]"
 Both(c, iter) == IF c.twice THEN One(c, c.over, iter) \o "+" \o One(c, Complement(c.over), iter) ELSE One(c, c.over, iter)
 Expected(c) ==
-  (IF c.hostp THEN "HP" ELSE "")
+  (IF c.hostp THEN "HPHQ" ELSE "")
   \o (CASE c.site = "loop" -> "H1" \o Both(c, 1) \o "," \o Both(c, 2) \o "," \o "H2"
         [] c.site = "macro" -> "H1M[" \o Both(c, 0) \o "]H2"
         [] OTHER -> "H1" \o Both(c, 0) \o "H2")
